@@ -20,6 +20,7 @@ mod c02_credit;
 mod c03_sender;
 mod c05_interlock;
 mod c07_alloc;
+mod c07_new;
 mod c07_ports;
 mod c09_wire;
 mod c10_open;
